@@ -5,8 +5,13 @@
 (* on a real collection, with the collection before (tree) and after (after) the call, the      *)
 (* policy, and the encoded outcome: the returned collection, the exception class, or - for      *)
 (* presync - the argument collections the decorated function was called with.                   *)
-EXTENDS Series, Batch
+(* o.cols is a column policy record [how, c] (SyncLaw.tla).  Dict containers are projected with   *)
+(* their class and their keys in the order of iteration (presync: the order in which the          *)
+(* decorated function received its keyword arguments) and are compared as they are: nothing is    *)
+(* brought into a canonical key order.                                                            *)
+EXTENDS SyncLaw, Batch
 
+CP(o) == IF o.api = "reindex" THEN NoCols ELSE o.cols
 Verdict(o) ==
     IF \E i \in 1..Len(TsLeaves(o.tree)) : ~WellFormed(TsLeaves(o.tree)[i]) THEN "malformed_observation"
     ELSE IF o.after # o.tree THEN "operand_changed"
@@ -14,18 +19,20 @@ Verdict(o) ==
     ELSE CASE o.api = "index" ->
                 IF o.out.v.k = JointOutcome(o.tree, o.pol).k /\ o.out.v = JointOutcome(o.tree, o.pol) THEN "" ELSE "joint_index"
            [] o.api \in {"sync", "reindex"} ->
-                LET want == SyncOutcomes(o.tree, o.pol, o.m, IF o.api = "reindex" THEN "none" ELSE o.cols)
-                    got  == Canon(o.out.v, o.tree)
+                LET want == SyncOutcomesX(o.tree, o.pol, o.m, CP(o))
+                    got  == o.out.v
                 IN  IF \E w \in want : ShapeOnly(w) = ShapeOnly(got) /\ w = got THEN ""
-                    ELSE WhyNot(Sync(o.tree, o.pol, o.m, IF o.api = "reindex" THEN "none" ELSE o.cols, "row"), got)
+                    ELSE WhyNotX(SyncX(o.tree, o.pol, o.m, CP(o), "row"), got)
            [] o.api = "presync" ->
-                LET want == PresyncOutcomes(o.tree, o.pol, o.m, o.cols)
-                    got  == {Canon(o.out.calls[i], o.tree) : i \in 1..Len(o.out.calls)}
+                LET want == PresyncOutcomesX(o.tree, o.pol, o.m, o.cols)
+                    got  == {o.out.calls[i] : i \in 1..Len(o.out.calls)}
                     ok(S) == (\A w \in S : \E g \in got : ShapeOnly(g) = ShapeOnly(w) /\ TreeMatches(w, g))
                              /\ (\A g \in got : \E w \in S : ShapeOnly(g) = ShapeOnly(w) /\ TreeMatches(w, g))
                 IN  IF \E S \in want : ok(S) THEN ""
                     ELSE IF Cardinality(got) = 1 /\ MultiLeaves(o.tree) = <<>>
-                         THEN "presync_" \o WhyNot(Collapse(Sync(o.tree, o.pol, o.m, "none", "row")), Collapse(CHOOSE g \in got : TRUE))
+                         THEN "presync_" \o WhyNotX(Collapse(SyncX(o.tree, o.pol, o.m, NoCols, "row")), Collapse(CHOOSE g \in got : TRUE))
+                         ELSE IF \A g \in got : ShapeOnly(Reorder(g, o.tree)) = ShapeOnly(o.tree) /\ ShapeOnly(g) # ShapeOnly(o.tree)
+                         THEN "presync_dict_order"
                          ELSE "presync_calls"
            [] OTHER -> "unknown_api"
 
